@@ -400,17 +400,25 @@ def w_vector_inplace(ctx, rng, i):
     if not hasattr(a, "compose_after_from_vector_inplace"):
         ctx.count_case(("vector_inplace", kind, d, "n/a"), nontrivial=False)
         return
+    ha = np.array(a.h_matrix, dtype=float)
     try:
         v = np.array(b.as_vector(), dtype=float)
         delta = a.from_vector(v)
     except Exception:
         ctx.count_case(("vector_inplace", kind, d, "no_vector"), nontrivial=False)
         return
+    if tx.maxdiff(a.h_matrix, ha) > 0:
+        # (the out-of-place constructor: the receiver only lends its class and options)
+        ctx.fail("from_vector_changed_the_transform_it_was_called_on", cls=type(a).__name__, mech="from_vector")
+        return
     if tx.maxdiff(delta.h_matrix, b.h_matrix) > 1e-9 * max(1.0, float(np.abs(b.h_matrix).max())):
         ctx.count_case(("vector_inplace", kind, d, "no_parameters_for_that_member"), nontrivial=False)      # (mirrored similarity ...: C05's subject)
         return
     x = probe_pts(d)
     ref = a.apply(delta.apply(x))                  # compose_after: the argument first, then the receiver
+    hx = np.hstack([x, np.ones((len(x), 1))]) @ (ha @ np.array(b.h_matrix, dtype=float)).T
+    if ha.shape[0] == ha.shape[1] and tx.maxdiff(ref, hx[:, :-1] / hx[:, -1:]) > 1e-8 * max(1.0, float(np.abs(ref).max())):
+        ctx.fail("sequential_application_differs_from_the_product_of_the_matrices", cls=type(a).__name__, mech="after_from_vector_inplace")
     recv = a.copy()
     try:
         recv.compose_after_from_vector_inplace(v)
